@@ -89,6 +89,8 @@ def build(spec: Dict, candles: list, cfg: Optional[Dict] = None):
         common["timeframe_fill"] = bool(cfg.get("fill"))
     if cfg.get("ha"):
         common["candlestick_type"] = "HA"
+    if cfg.get("ha_obj") is not None:
+        common["candlestick_type"] = cfg["ha_obj"]     # a CandlestickType object (may be shared)
     if cfg.get("lifespan") is not None:
         common["candles_lifespan"] = timedelta(seconds=cfg["lifespan"])
     if spec.get("name_suffix"):
